@@ -59,6 +59,13 @@ def layouts():
         Transport(label="t", duration=1, disk_element_count=2),
         ThreeRollPass(label="r3", roll=Roll(groove=RoundGroove(r1=3e-3, r2=25e-3, depth=11e-3, pad_angle=30), nominal_radius=160e-3, rotational_frequency=1), gap=2e-3,
                       disk_element_count=1)]), ip3, False))
+    # a workpiece that is not centred on the rolling axis (a bar with a nose on one side): rotations are about the axis, not about the workpiece
+    def ip_off():
+        from shapely.geometry import Polygon
+        poly = Polygon([(-12e-3, -14e-3), (12e-3, -14e-3), (16e-3, 0), (12e-3, 14e-3), (-12e-3, 14e-3)])
+        return Profile.from_polygon(poly, {"box"}, temperature=1473.15, strain=0, material=["C45", "steel"], length=1, density=7.5e3)
+    out.append(('off-axis', lambda: PassSequence([Transport(label="feed", duration=1, velocity=1.0), Rotator(label="rot30", rotation=30, velocity=1.0), oval(),
+                                                  Transport(label="t1", duration=1), rnd()]), ip_off, False))
     return out
 
 
@@ -82,6 +89,15 @@ def rel(a, b):
 
 
 def check_sequence(chk, name, seq, returned, ip, prec):
+    try:
+        return _check_sequence(chk, name, seq, returned, ip, prec)
+    except AttributeError as e:
+        # a value the property speaks about (a unit's length, duration, power, a profile's time ...) cannot be read although the solve succeeded
+        if not chk.failures:
+            chk.fail('value-unavailable', f"[{name}] the sequence solved, but reading the values of its units fails: {type(e).__name__}: {str(e)[:160]}", {'layout': name})
+
+
+def _check_sequence(chk, name, seq, returned, ip, prec):
     from pyroll.core import BaseRollPass, Rotator, PassSequence, Transport
     fails = []
 
@@ -106,6 +122,14 @@ def check_sequence(chk, name, seq, returned, ip, prec):
             if through_rotation:
                 if rel(inp['cross_section'].area, last['cross_section'].area) > 1e-12:
                     fail('handover-rotation', f"{u}: entry rotation changed the area")
+                # ... and the entering section is the delivered one turned about the rolling axis (by the set angle, or by one of the rule angles)
+                from shapely.affinity import rotate as _rot
+                P, Q = last['cross_section'], inp['cross_section']
+                rot = u.rotation
+                angles = [float(rot)] if not isinstance(rot, (bool, np.bool_)) else [0.0, 45.0, 60.0, 90.0, 180.0]
+                if all(_rot(P, a, origin=(0, 0)).symmetric_difference(Q).area > 1e-9 * P.area for a in angles):
+                    fail('handover-rotation', f"{u}: the entering section is not the delivered one turned about the rolling axis by {angles} degrees "
+                                              f"(centroid {P.centroid.x:.4g}, {P.centroid.y:.4g} -> {Q.centroid.x:.4g}, {Q.centroid.y:.4g})")
             # time, length, strain
             t_in, t_out = float(u.in_profile.t), float(u.out_profile.t)
             if abs(t_out - (t_in + float(u.duration))) > 1e-12 * max(1.0, abs(t_out)) or t_out < t_in - 1e-15:
@@ -184,13 +208,34 @@ def run(chk):
     from pyroll.core import RollPass, ThreeRollPass
     prec = 1e-3
     done = []
+    # "every solved sequence": also one solved after other units of the same process were merely looked at.  Probing an unsolved unit for values it
+    # cannot have yet is an everyday operation (has_value answers False); it must leave nothing behind that a later solve could trip over
+    from pyroll.core import Transport, Rotator, CoolingPipe, PassSequence, Profile as _P
+    probes = [Transport(label="probe-t", duration=1), Rotator(label="probe-r", rotation=90), CoolingPipe(label="probe-c", length=1, inner_radius=0.05, coolant_volume_flux=1e-3),
+              PassSequence([Transport(label="probe-inner", duration=1)], label="probe-seq")]
+    for pu in probes:
+        for hname in ('length', 'duration', 'velocity', 'volume', 'power'):
+            try:
+                pu.has_value(hname)
+            except Exception as e:      # noqa
+                chk.notes.append(f"has_value({hname!r}) on the unsolved {pu} raised {type(e).__name__}")
+    try:
+        probes[-1].solve(_P.round(diameter=30e-3, temperature=1473.15, material=["C45", "steel"]))      # no velocity anywhere: the length cannot be given
+        probes[-1].has_value('length')
+    except Exception:      # noqa  (a failing solve is an answer, too)
+        pass
     for name, mk, ip_mk, spread in layouts():
         seq, ip = mk(), ip_mk()
         ctx = [RollPass.Profile.flow_stress(flow_stress), ThreeRollPass.Profile.flow_stress(flow_stress)]
         if spread:
             ctx.append(RollPass.OutProfile.width(spread_width))
         try:
-            returned = seq.solve(ip)
+            try:
+                returned = seq.solve(ip)
+            except Exception as e:      # noqa
+                chk.fail('solve-fails', f"[{name}] the first solve of a fresh sequence fails with {type(e).__name__}: {str(e)[:150]} (before, unsolved units of the same "
+                         f"process had been probed with has_value and a line without any velocity had been solved)", {'layout': name})
+                continue
             check_sequence(chk, name, seq, returned, ip, prec)
             chk.cov['evaluations'] += 1
             # histories: the same sequence solved again with another incoming profile, then with a changed gap
